@@ -154,7 +154,7 @@ static void iso_run(int h, uint64_t seed, IsoFn fn, void *arg, int timeout_s) {
             }
             fclose(e);
             if (leak) strcpy(kind, "lsan");
-            if (!strcmp(site, "unknown") && frame_site[0]) strcpy(site, frame_site);
+            if (frame_site[0]) strcpy(site, frame_site);          /* the top-most frame inside /repo is the stable call site */
             if (!strcmp(site, "unknown") && ubsan_loc[0]) snprintf(site, sizeof site, "%s", ubsan_loc);
         }
         unlink(errpath);
@@ -410,6 +410,10 @@ static void c18_prefix(Buf *b, int h) {
         t12_begin(b, T12_TAG0, T12_ORD_NV_DefineSpace); t12_nv_public(b, 0x00011200u + i, i == 2 ? 0x10001u : 0, 16 + 16 * i); b_fill(b, 20, 1); c18_run(b);
     }
     { uint8_t d[8] = {1, 2, 3, 4, 5, 6, 7, 8}; t12_begin(b, T12_TAG0, T12_ORD_NV_WriteValue); b_u32(b, 0x00011200u); b_u32(b, 0); b_u32(b, 8); b_bytes(b, d, 8); c18_run(b); }
+    /* offset + size sums that wrap in 32 bits (found by the thorough tier: NV_WriteValue offset 0xFFFFFFFF) */
+    { uint8_t d2[2] = {0xAA, 0x55};
+      t12_begin(b, T12_TAG0, T12_ORD_NV_WriteValue); b_u32(b, 0x00011202u); b_u32(b, 0xFFFFFFFFu); b_u32(b, 2); b_bytes(b, d2, 2); c18_run(b);
+      t12_begin(b, T12_TAG0, T12_ORD_NV_ReadValue); b_u32(b, 0x00011202u); b_u32(b, 0xFFFFFFF0u); b_u32(b, 0x18); c18_run(b); }
     /* responses around the negotiated buffer size: a 4200-byte NV area read with sizes that make the response end
        just below / at / above TPM12_GetBufferSize() (14 = header + length field) */
     t12_begin(b, T12_TAG0, T12_ORD_NV_DefineSpace); t12_nv_public(b, 0x00011204u, 0x10001u, 4200); b_fill(b, 20, 1); c18_run(b);
